@@ -146,8 +146,8 @@ def replay_case(arg):
                                               equal_nan=True),
                             mapping=dict(m2.mapping_.to_original) == got["to_orig"]
                             and dict(m2.mapping_.to_mapped) == dict(m.mapping_.to_mapped),
-                            config=(m2.lag_time, m2.trim, m2.sliding_window, m2.method) ==
-                                   (m.lag_time, m.trim, m.sliding_window, m.method))
+                            config=(m2.lag_time, m2.trim, m2.sliding_window, m2.method, m2.max_n_states) ==
+                                   (m.lag_time, m.trim, m.sliding_window, m.method, m.max_n_states))
                 nan = np.isnan(got["eq"]).any() or np.isnan(got["tprobs"]).any()
                 if not nan:
                     same["eq_operator"] = bool(m2 == m)
@@ -190,7 +190,7 @@ def spectrum_record(arg):
     Tm = sp.csr_matrix(T) if extra.get("sparse") else T
     rec = {"n": n, "A": A.tolist(), "D": int(D), "reversible": bool(np.array_equal(C, C.T)), "r": r.tolist(),
            "lam": extra.get("lam", []), "p0": extra.get("p0", [1] + [0] * (n - 1)), "P": extra.get("P", 1),
-           "events": [], "sparse": bool(extra.get("sparse"))}
+           "events": [], "sparse": bool(extra.get("sparse")), "large": False}
     ev = rec["events"]
 
     def guard(f):
@@ -228,6 +228,90 @@ def spectrum_record(arg):
     return rec
 
 
+# ---- large structured chains: both sides of eigenspectrum's `T.shape[0] < 1000 and issparse(T)` switch ---------
+SPECTRUM_SIZES = {"quick": [999, 1000, 1001], "thorough": [999, 1000, 1001, 1500]}
+# ARPACK does not converge on the directed-ring family with >= 1000 states (see props/c04.py RING_ARPACK): the
+# sparse ring traces at these sizes stay off; non-reversible chains reach ARPACK through the "prod" family
+RING_ARPACK = False
+_LARGE = []
+
+
+def spectrum_record_large(arg):
+    k, sparse = arg
+    import scipy.sparse as sp
+    from props import c04
+    from enspara.msm.transition_matrices import eigenspectrum, eq_probs
+    c = _LARGE[k]
+    n = c["n"]
+    T = c04._expect(c)[2]
+    Tm = sp.csr_matrix(T) if sparse else T
+    # T by columns, exact: entries of the emitted sparse rows <<num, den>>
+    cols = [[] for _ in range(n)]
+    i, j, v = c04._rows(c["T"])
+    for a, b, t in zip(i.tolist(), j.tolist(), v):
+        if t[0] > 0:
+            cols[b].append([a + 1, t[0], t[1]])
+    scale = 10 ** 8
+    rec = {"large": True, "n": n, "cols": cols, "scale": scale, "events": [], "sparse": bool(sparse),
+           "fam": c["fam"], "pat": c["pat"], "builder": c["builder"]}
+    ev = rec["events"]
+
+    def ints(x, sc):          # projection with saturation: the trace holds 32-bit integers only
+        x = np.asarray(x, dtype=float)
+        if not np.isfinite(x).all():
+            raise FloatingPointError("non-finite output")
+        return np.clip(np.rint(x * sc), -2 * 10 ** 9, 2 * 10 ** 9).astype(np.int64).tolist()
+
+    def guard(f):
+        try:
+            with warnings.catch_warnings():
+                warnings.simplefilter("ignore")
+                f()
+        except Exception as ex:
+            ev.append({"ev": "raise", "msg": type(ex).__name__ + ": " + str(ex)[:160]})
+
+    def eig():
+        vals, vecs = eigenspectrum(Tm, n_eigs=3)
+        ev.append({"ev": "eigL", "vals6": ints(vals, 1e6), "p": ints(vecs[:, 0], scale)})
+
+    def eq():
+        ev.append({"ev": "eqL", "p": ints(eq_probs(Tm), scale)})
+    guard(eig)
+    if sparse and n >= 1000:      # eq_probs is eigenspectrum(n_eigs=3): a second LAPACK run is not worth 2 s
+        guard(eq)
+    return rec
+
+
+def large_spectrum_traces(ctx):
+    """transition matrices of the BuildersLarge.tla families (exact rationals emitted by TLC; the closed forms
+    themselves are C04's business) through eigenspectrum / eq_probs, dense and sparse"""
+    global _LARGE
+    from props import c04
+    d = core.spec_tmp(SPEC_DIR)
+    sizes = SPECTRUM_SIZES[ctx.tier]
+    jobs = [c04.large_job(d, "sp%d" % n, [n], [1 + (q + ctx.seed) % c04.NPATS], '{"dense"}', "emit", priors=(0,),
+                          workers=1) for q, n in enumerate(sizes)]
+    cases = [p for r in ctx.tlc_parallel(jobs) for t, p in r.prints if t == "CASE"]
+    if len({c["n"] for c in cases}) != len(sizes):
+        raise core.MachineryError("large spectrum: cases for sizes %s only" % sorted({c["n"] for c in cases}))
+    _LARGE = cases
+    args = []
+    for k, c in enumerate(cases):
+        n, fam = c["n"], c["fam"]
+        slow = fam in c04.SLOW_MIXING
+        # sparse: always below the threshold (densified inside); above it unless ARPACK is known not to converge
+        if n < 1000 or fam != "ring" or c["builder"] == "transpose" or RING_ARPACK:
+            if n < 1000 and (k + ctx.seed) % 3:
+                pass                                  # LAPACK on n = 999: every third case is enough
+            elif not (slow and c["builder"] == "transpose" and n >= 1000 and (k + ctx.seed) % 2):
+                args.append((k, True))
+        # dense (LAPACK at every size): a few
+        if (k + ctx.seed) % 5 == 0 and n <= 1001:
+            args.append((k, False))
+    args.sort(key=lambda a: (a[1], -cases[a[0]]["n"]))          # the LAPACK runs first
+    return core.pmap(spectrum_record_large, args, chunk=1)
+
+
 def spectrum_part(ctx):
     mats = c12.enumerate_inputs(ctx, [dict(N=3, MaxC=2)] if ctx.tier == "quick" else [dict(N=3, MaxC=2), dict(N=4, MaxC=1)])
     rng = np.random.RandomState(ctx.seed + 16)
@@ -256,6 +340,7 @@ def spectrum_part(ctx):
                 args.append(("circ", C, {"lam": [[Dd - 3 * p, Dd], [Dd - 3 * p, Dd]], "lag": 2}))
     args = [a for a in args if _lcm([int(sum(r)) for r in a[1]]) <= 20]     # 32-bit budget of Spectrum.tla
     recs = core.pmap(spectrum_record, args, chunk=50)
+    recs += large_spectrum_traces(ctx)
     d = core.spec_tmp(SPEC_DIR)
     tf = os.path.join(d, "traces.json")
     json.dump(recs, open(tf, "w"))
@@ -265,27 +350,40 @@ def spectrum_part(ctx):
     verdict = {p[0]: p[1] for t, p in r.prints if t == "VERDICT"}
     for k, rec in enumerate(recs):
         ctx.traces += 1
-        ctx.case(("spectrum", str(rec["A"]), rec["sparse"]), sample=None)
+        ctx.case(("spectrum", str(rec["A"]), rec["sparse"]) if not rec["large"] else
+                 ("spectrum-large", rec["n"], rec["fam"], rec["pat"], rec["builder"], rec["sparse"]), sample=None)
         v = verdict.get(k + 1)
         if v is None:
             raise core.MachineryError("no verdict for spectrum trace %d" % (k + 1))
         for clause, l in v:
             evn = rec["events"][l - 1] if l else {}
+            if rec["large"]:
+                # the matrix is regenerated from the specification, not stored: n = 1000 traces are megabytes
+                small = {k: v for k, v in rec.items() if k not in ("cols", "events")}
+                evn = {k: (v if not isinstance(v, list) or len(v) <= 12 else v[:12] + ["..."]) for k, v in evn.items()}
+                ctx.violation({"kind": "trace-rejected", "clause": clause, "event": evn, "trace": small,
+                               "regenerate": "BuildersLarge.tla Sizes={%d} Families={\"%s\"} PatIds={%d} builder %s"
+                                             % (rec["n"], rec["fam"], rec["pat"], rec["builder"]),
+                               "how": "Spectrum.tla clause fails on recorded output"},
+                              key="spectrum-large/%s/%s/%s" % (clause, "sparse" if rec["sparse"] else "dense",
+                                                               "n>=1000" if rec["n"] >= 1000 else "n<1000"))
+                continue
             ctx.violation({"kind": "trace-rejected", "clause": clause, "event": evn, "trace": rec,
                            "how": "Spectrum.tla clause fails on recorded output"},
                           key="spectrum/%s%s" % (clause, "/sparse" if rec["sparse"] else ""))
     ctx.notes["spectrum_traces"] = len(recs)
+    ctx.notes["spectrum_large_traces"] = sum(1 for r in recs if r["large"])
 
 
 def run(ctx):
     ctx.rule = ("part 1: TLC enumerates every assignment set (<=MaxT trajectories of length 1..MaxLen over S states) x "
                 "lag x builder x trim x sliding x max_n_states; non-trivial = at least one lagged pair; part 2: every "
                 "strongly connected 3-state chain from TLC-enumerated count matrices (entries 0..2) plus the rational-"
-                "eigenvalue families")
+                "eigenvalue families, plus the BuildersLarge.tla families at n = 999, 1000, 1001 (dense and sparse: "
+                "LAPACK and ARPACK paths of eigenspectrum)")
     ctx.assumptions += ["eq_probs_ for method=normalize is compared with the real function pipeline bitwise and validated "
                         "relationally in part 2 (no closed form in MSMObj.tla)",
                         "method=mle only compared with the real function pipeline (values: see C12)",
-                        "max_n_states is not part of the persisted configuration (as in the code's config property)",
                         "timescales at 1e-2 relative (32-bit budget, ln table)"]
     b = core.build_repo()
     core.activate(b)
@@ -315,3 +413,7 @@ def run(ctx):
             for key, detail in bad:
                 ctx.violation({"kind": "replay", "case": c, "detail": detail, "how": "MSM object vs MSMObj.tla"}, key=key)
     spectrum_part(ctx)
+    # growth beyond the listed property: the TrimMapping object and the life cycle of the estimator (construction,
+    # set_params, refit, save / load, equality) -- specs/msm/TrimMapping.tla, MSMLife.tla
+    from props import x_trimmap
+    x_trimmap.run_part(ctx)
